@@ -640,7 +640,69 @@ func tileSpecs(thorough bool) []composeSpec {
 			}
 			return ""
 		}})
+	// --- Fraction: the latitude clamp applies beyond +-85.0511 only ----------
+	type latCase struct {
+		name string
+		iv   fInterval
+		want string // "formula", "top" (0) or "bottom" (2^zoom - 1)
+	}
+	lats := []latCase{
+		{"latitude in the closed range [-85.0511, 85.0511]", fInterval{Lo: -85.0511, Hi: 85.0511}, "formula"},
+		{"latitude exactly 85.0511", fInterval{Lo: 85.0511, Hi: 85.0511}, "formula"},
+		{"latitude exactly -85.0511", fInterval{Lo: -85.0511, Hi: -85.0511}, "formula"},
+		{"latitude in (85.0511, 90]", fInterval{Lo: 85.0511, Hi: 90, LoStrict: true}, "top"},
+		{"latitude in [-90, -85.0511)", fInterval{Lo: -90, Hi: -85.0511, HiStrict: true}, "bottom"},
+	}
+	var fr []composeCase
+	for _, z := range zs {
+		for _, lc := range lats {
+			z, lc := z, lc
+			fr = append(fr, composeCase{fmt.Sprintf("zoom %d, %s", z, lc.name), func(it *Interp, s *State) ([]AV, interface{}) {
+				lon := it.freeFloat().(FloatV)
+				lat := it.freeFloat().(FloatV)
+				it.setInterval(s, lon, -180, 180)
+				if s.fsyms == nil {
+					s.fsyms = map[int]fInterval{}
+				}
+				s.fsyms[lat.Sym] = lc.iv
+				return []AV{ArrV{N: 2, Elems: []AV{lon, lat}}, intOf(int64(z))}, &fracCtx{z: z, want: lc.want}
+			}})
+		}
+	}
+	specs = append(specs, composeSpec{entry: "maptile.Fraction", cases: fr, intervals: true, anyPath: true,
+		desc: "the row is clamped (0 at the top, 2^zoom - 1 at the bottom) only for latitudes beyond +-85.0511; for every latitude of the closed range, the end points included, it comes from the mercator formula",
+		judge: func(_ *Interp, cx interface{}, st *State) string {
+			ctx := cx.(*fracCtx)
+			arr, ok := st.result[0].(ArrV)
+			if !ok || len(arr.Elems) != 2 {
+				return "the result is not a point"
+			}
+			y, ok := arr.Elems[1].(FloatV)
+			if !ok {
+				return "the row is not a float"
+			}
+			switch ctx.want {
+			case "formula":
+				if y.Known {
+					return fmt.Sprintf("the row is the constant %g on this path: a latitude inside the closed range is clamped", y.V)
+				}
+			case "top":
+				if !y.Known || y.V != 0 {
+					return "a latitude beyond 85.0511 N is not clamped to row 0"
+				}
+			case "bottom":
+				if want := float64(int64(1)<<uint(ctx.z)) - 1; !y.Known || y.V != want {
+					return fmt.Sprintf("a latitude beyond 85.0511 S is not clamped to row 2^zoom - 1 = %g", want)
+				}
+			}
+			return ""
+		}})
 	return specs
+}
+
+type fracCtx struct {
+	z    int
+	want string
 }
 
 // orShift: the receiver OR (b >> k), used to build expected vectors.
